@@ -31,6 +31,7 @@ func replay(c *vlib.Ctx) {
 			TextHex   string              `json:"text_hex"`
 			Hex       string              `json:"hex"`
 			Extreme   *ext                `json:"extreme"`
+			Reveal    *revealCase         `json:"reveal_case"`
 			Sealed    bool                `json:"sealed"`
 			Config    *chain.LedgerConfig `json:"config"`
 			Behaviour []chain.Step        `json:"behaviour"`
@@ -45,6 +46,14 @@ func replay(c *vlib.Ctx) {
 	}
 	c.Rule("replay of one saved case")
 	cs := f.Case
+	if cs.Reveal != nil {
+		// commit, then reveal: the two blocks are rebuilt from the case
+		if p, val := vlib.Recover(func() { replayReveal(c, cs.Reveal) }); p {
+			c.Fatal("replay: %v", val)
+		}
+		c.Count(1, 1)
+		c.Finish()
+	}
 	if cs.Extreme != nil && cs.Config == nil && (cs.Extreme.Fam == "wrap" || cs.Extreme.Fam == "lifecycle") {
 		// scenarios of their own: rebuilt from the catalogue entry alone
 		st := newLedgerStats()
